@@ -1,5 +1,5 @@
 //verif:pkg .
-//verif:bound legacy SSE client: connect GET, request, notification and answer to a server-issued request x {0..2 static headers, custom path or none, before-request function absent / present / failing}
+//verif:bound legacy SSE client: connect GET, request, notification and answer to a server-issued request x {0..2 static headers (one of them with two values), custom path or none, before-request function absent / present / failing}
 package mcp
 
 import (
@@ -39,7 +39,8 @@ func c19LegacySetup(e *c19Env) *verifStream {
 	var opts []ClientOption
 	h := http.Header{}
 	if e.hdrA {
-		h.Set("X-A", "va")
+		h.Add("X-A", "va") // a header with two values: both must reach the wire
+		h.Add("X-A", "va2")
 	}
 	if e.hdrB {
 		h.Set("X-B", "vb")
@@ -82,7 +83,8 @@ func c19LegacyCheck(e *c19Env, s *verifSent, connect bool) {
 		vAssert("endpoint-from-server", vAnd(s.path == "/message", strings.Contains(s.url, "sessionId=abc")))
 	}
 	if e.hdrA {
-		vAssert("static-header-A", s.header.Get("X-A") == "va")
+		av := s.header.Values("X-A")
+		vAssert("static-header-A-all-values", vAnd(len(av) == 2, len(av) == 2 && av[0] == "va" && av[1] == "va2"))
 	}
 	if e.hdrB {
 		vAssert("static-header-B", s.header.Get("X-B") == "vb")
